@@ -14,7 +14,11 @@ RULE = ('T2: Method/Protocol/Status parse+compose, Request/Response line parse (
 	'bytes.strip().split(None, n) itself, evaluated by the Gallina model (vm_compute) and by the implementation on the same inputs: all codes 0-999 x '
 	'reasons, all versions [0,3]x[0,11] (pairs for the order), every octet in every position of valid start lines / versions / statuses / methods '
 	'(256-bit acceptance masks), random long names, malformed stream; oracle: the property stated on the real objects. '
-	'non-trivial = distinct (kind, observation) that is accepted, or a distinct rejection kind per kind')
+	'non-trivial = distinct (kind, observation) that is accepted, or a distinct rejection kind per kind. Fourth wave: every registered reason phrase (REASONS, status classes) and every '
+	'method name the tree mentions in five letter cases through status / status line / client / server / compose; limit lengths 11..65536 of reason, blank runs, target, method and version digits '
+	'(model up to 300 octets, oracle beyond); degenerate lines, components and text operands; versions with leading zeros and list / text-tuple operands; look-alike and normalisation-form '
+	'text in the method / version / reason positions of the API (uni, oracle) and as UTF-8 on the wire; seq (oracle): one Method / Protocol / Status / Request / Response object parsed, set through '
+	'every public way and composed repeatedly, values taken over by a second message, server and client machines over several messages = what fresh objects give')
 EXHAUSTIVE = {'quick': False, 'thorough': True}
 TRUSTED = ['harness/tables/startline.py (T1: octet classes of METHOD_RE/STATUS_RE/PROTOCOL_RE by probing the compiled regexes, pattern strings, composer literals, ServerProtocol, int digit limit)',
 	'harness/props/C18.py + coq/Corr/C18.v (T2; the argument of URI.parse is recorded by wrapping the method from outside the package)',
@@ -265,7 +269,309 @@ def gen_cases(rng, tier):
 	cases.extend(_corruptions('client', b'HTTP/1.1 204 No Content', rng, big))
 	for code in range(0, 1000, 1 if big else 7):
 		cases.append({'k': 'client', 'line': (b'HTTP/1.%d %d Reason' % (code % 2, code)).hex()})
+	cases.extend(_wave4(rng, tier))  # appended last: the cases above stay what they were for a given seed
 	return [c for c in cases if _server_case_ok(c)]
+
+
+# ------------------------------------------------------------------------------------------------ fourth wave: the six classes of DESIGN.md section 8
+LIMITS = [11, 12, 75, 76, 255, 256, 1023, 1024, 4095, 4096, 8190, 8191, 8192, 65535, 65536]
+NOBODY = [b'GET', b'HEAD', b'OPTIONS']  # methods the server machine serves without a Content-Length
+# look-alikes of start-line characters (compatibility, NFC-singleton, decomposed, astral, other scripts)
+LOOKALIKE = {'K': ['\u212a', '\uff2b', '\u039a'], 'A': ['\u0391', '\uff21', '\u0410', '\U0001d400'], 'E': ['E\u0301', '\u00c9', '\uff25', '\u0395'],
+	'O': ['\u039f', '\uff2f', '\u2126'], 'H': ['\uff28', '\u0397'], 'T': ['\uff34', '\u03a4'], 'P': ['\uff30', '\u03a1'], 'G': ['\uff27', '\U0001d406'],
+	'1': ['\uff11', '\u0661', '\u00b9', '\U0001d7cf'], '0': ['\uff10', '\u0660', '\u06f0'], '2': ['\uff12', '\u00b2', '\u0662'], '.': ['\uff0e', '\u2024'],
+	'/': ['\uff0f', '\u2215'], '-': ['\u2010', '\uff0d'], '_': ['\uff3f'], '$': ['\uff04'], ' ': ['\u00a0', '\u3000', '\u2002']}
+UNITEXT = ['Cafe\u0301', 'Caf\u00e9', 'A\u030a', '\u00c5', '\u212b', '\u2126', '\u03a9', '\u212a', '\u1100\u1161', '\uac00', '\uf900', '\u8c48', '\U0001f600',
+	'\U00020000 x', '\ufb01n', 'fin', '\uff4f\uff4b', '\u00df', '\u0130']
+
+
+def _registries():
+	"""registries consulted by the code under test, read from the working tree at run time: reason phrases (REASONS, the status classes), method names"""
+	import glob
+	import os
+	import re as _re
+	import httoop
+	import httoop.status as st
+	from httoop.messages.method import Method
+	reasons = {}
+	for code, val in st.REASONS.items():
+		reasons.setdefault(int(code), set()).add(val[0] if isinstance(val, (tuple, list)) else val)
+	for code, cls in getattr(st, 'STATUSES', {}).items():
+		r = getattr(cls, 'reason', None)
+		if isinstance(r, str):
+			reasons.setdefault(int(code), set()).add(r)
+	methods = set()
+	for name in dir(Method):
+		v = getattr(Method, name, None)
+		if isinstance(v, (tuple, list, set, frozenset, dict)) and v and all(isinstance(x, (str, bytes)) for x in v):
+			methods.update(x.decode('latin-1') if isinstance(x, bytes) else x for x in v)
+	root = os.path.dirname(httoop.__file__)
+	for path in glob.glob(os.path.join(root, '**', '*.py'), recursive=True):
+		with open(path, encoding='utf-8', errors='replace') as fd:
+			for line in fd:
+				if 'method' in line.lower():
+					methods.update(_re.findall(r"""[bu]?['"]([A-Z][A-Z-]{2,15})['"]""", line))
+	return reasons, sorted(m for m in methods if m and all(ord(ch) < 128 for ch in m))
+
+
+def _lcases(s):
+	out = []
+	for x in (s, s.lower(), s.upper(), s.swapcase(), s.title()):
+		if x not in out:
+			out.append(x)
+	return out
+
+
+def _zp(rng, n, force=False):
+	return b'0' * (rng.randint(1, 3) if force or rng.random() < 0.6 else 0) + b'%d' % n
+
+
+def _wave4(rng, tier):
+	big = tier == 'thorough'
+	out = []
+	grid = _versions_grid()
+	reasons, methods = _registries()
+
+	# (4) every registered reason phrase, in every letter case, with its own and with a foreign code: parse, status line, client, compose
+	codes = sorted(reasons)
+	for code in codes:
+		for reason in sorted(reasons[code]):
+			if not reason:
+				continue
+			for j, r in enumerate(_lcases(reason)):
+				rb = r.encode('latin-1')
+				out.append({'k': 'status', 's': (b'%d ' % code + rb).hex()})
+				v = rng.choice(grid)
+				if big or j != 1:
+					out.append({'k': 'resp', 'line': (_vtext(v) + b' %d ' % code + rb + b'\r\n').hex()})
+				if big or j in (1, 3):
+					out.append({'k': 'client', 'line': (_vtext((1, rng.randint(0, 1))) + b' %d ' % code + rb).hex()})
+				if big or j in (0, 2):
+					out.append({'k': 'status_compose', 'code': code, 'reason': r})
+				if j == 0 or big:
+					other = rng.choice(codes)
+					out.append({'k': 'status', 's': (b'%d ' % other + rb).hex()})
+					out.append({'k': 'resp_compose', 'v': list(v), 'code': other, 'reason': r})
+	# every method name the tree mentions, in every letter case: the name is kept as written
+	for m in methods:
+		for j, mm in enumerate(_lcases(m)):
+			mb = mm.encode('ascii')
+			out.append({'k': 'method', 'm': mb.hex()})
+			v = rng.choice(grid)
+			out.append({'k': 'req', 'line': (mb + b' ' + rng.choice(SAFE_TARGETS) + b' ' + _vtext(v) + b'\r\n').hex()})
+			if m.upper() not in ('CONNECT',) and (big or j in (0, 1, 3)):
+				out.append({'k': 'server', 'line': (mb + b' ' + rng.choice(SAFE_TARGETS) + b' ' + _vtext(rng.choice([(1, 1), (1, 0), (0, 9)]))).hex()})
+			if big or j in (1, 4):
+				out.append({'k': 'req_compose', 'm': mb.hex(), 'uri': '/', 'v': list(v)})
+
+	# (3) lengths at limits in every position that has one (the longer ones are oracle only)
+	for n in LIMITS:
+		word = b'a' * n
+		words = (b'ab ' * (n // 3 + 1))[:n].rstrip(b' ') + (b'b' if (b'ab ' * (n // 3 + 1))[:n].endswith(b' ') else b'')
+		blanks = b' ' * n
+		tabs = (b' \t' * n)[:n]
+		v = rng.choice(grid)
+		vt = _vtext(v)
+		code = rng.randint(100, 599)
+		for reason in (word, words):
+			out.append({'k': 'status', 's': (b'%d ' % code + reason).hex()})
+			out.append({'k': 'resp', 'line': (vt + b' %d ' % code + reason + b'\r\n').hex()})
+			out.append({'k': 'client', 'line': (_vtext((1, 1)) + b' %d ' % code + reason).hex()})
+			if n <= 4096:
+				out.append({'k': 'status_compose', 'code': code, 'reason': reason.decode()})
+		for sep in (blanks, tabs):
+			out.append({'k': 'status', 's': (b'%d' % code + sep + b'OK').hex()})
+			out.append({'k': 'resp', 'line': (vt + sep + b'%d OK' % code).hex()})
+			out.append({'k': 'resp', 'line': (vt + b' %d' % code + sep + b'Not Found').hex()})
+			out.append({'k': 'resp', 'line': (sep + vt + b' %d OK' % code + sep).hex()})
+			out.append({'k': 'req', 'line': (b'GET' + sep + b'/' + b' ' + vt).hex()})
+			out.append({'k': 'req', 'line': (b'GET /x' + sep + vt + b'\r\n').hex()})
+			out.append({'k': 'req', 'line': (sep + b'PUT / ' + vt + sep).hex()})
+			out.append({'k': 'server', 'line': (b'GET' + sep + b'/' + sep + _vtext(rng.choice([(1, 0), (1, 1), (0, 9)])) + sep).hex()})
+			out.append({'k': 'client', 'line': (_vtext((1, 0)) + sep + b'%d' % code + sep + b'OK').hex()})
+		out.append({'k': 'req', 'line': (b'GET /' + word + b' ' + vt + b'\r\n').hex()})
+		out.append({'k': 'req', 'line': (b'OPTIONS /?' + word + b' ' + vt).hex()})
+		if n <= 4096:  # decimal numbers of n digits (CPython converts up to LIMIT digits)
+			big_n = int(b'7' * n)
+			for vtxt in (b'HTTP/%d.1' % big_n, b'HTTP/1.%d' % big_n, b'HTTP/' + b'0' * (n - 1) + b'1.' + b'0' * n):
+				out.append({'k': 'proto', 's': vtxt.hex()})
+				out.append({'k': 'req', 'line': (b'GET / ' + vtxt).hex()})
+				out.append({'k': 'resp', 'line': (vtxt + b' 200 OK').hex()})
+				out.append({'k': 'cmp', 'p': list(rng.choice(grid)), 'o': rng.choice(['bytes', 'str']), 's': vtxt.hex()})
+			out.append({'k': 'server', 'line': (b'GET / HTTP/' + b'0' * (n - 1) + b'1.' + b'0' * (n - 1) + rng.choice([b'0', b'1', b'2'])).hex()})
+		if n <= 256:
+			for m in (b'M' * n, (b'a-b_c.d$' * n)[:n], b'M' * (n + 1) if n == 12 else b'Z' * n):
+				out.append({'k': 'method', 'm': m.hex()})
+				out.append({'k': 'req', 'line': (m + b' / HTTP/1.1\r\n').hex()})
+	for n in (1, 2, 19, 20, 21):
+		for m in (b'Q' * n, (b'$-_.' * 6)[:n], (b'09azAZ' * 4)[:n]):
+			out.append({'k': 'method', 'm': m.hex()})
+			out.append({'k': 'req', 'line': (m + b' /x HTTP/1.0').hex()})
+			out.append({'k': 'server', 'line': (m + b' / HTTP/1.1').hex()})
+
+	# (5) degenerate start lines and components
+	deg_lines = [b'', b' ', b'  ', b'\t', b'\r\n', b' \r\n', b'\r\n\r\n', b'\x0b\x0c', b'/', b'//', b'.', b'..', b'/.', b'./', b'HTTP', b'HTTP/', b'HTTP/.', b'HTTP//', b'HTTP/..', b'HTTP//1.1', b'HTTP/1..1',
+		b'HTTP/1./1', b'GET', b'GET ', b'GET  ', b'GET /', b'GET / ', b'GET /  ', b'GET  HTTP/1.1', b'GET   HTTP/1.1', b' / HTTP/1.1', b'  HTTP/1.1', b'/ HTTP/1.1', b'GET / HTTP/1.1 ', b'GET / HTTP/1.1  x',
+		b'GET / / HTTP/1.1', b'GET GET / HTTP/1.1', b'GET / HTTP/1.1 HTTP/1.1', b'"GET" / HTTP/1.1', b'"GET / HTTP/1.1"', b'"GET / HTTP/1.1', b'GET "/" HTTP/1.1', b'GET / "HTTP/1.1"', b'GET / HTTP/"1.1"',
+		b'GET,/,HTTP/1.1', b'GET;/;HTTP/1.1', b'GET:/:HTTP/1.1', b'HTTP/1.1', b'HTTP/1.1 ', b'HTTP/1.1  ', b'HTTP/1.1 200', b'HTTP/1.1 200 ', b'HTTP/1.1 200  ', b'HTTP/1.1  200  OK', b' 200 OK', b'200 OK',
+		b'HTTP/1.1 OK', b'HTTP/1.1 OK 200', b'HTTP/1.1 200 200', b'HTTP/1.1 HTTP/1.1 200 OK', b'"HTTP/1.1" 200 OK', b'HTTP/1.1 "200" OK', b'HTTP/1.1 200 "OK', b'HTTP/1.1 200 "OK"', b'HTTP/1.1 200 ""',
+		b'HTTP/1.1,200,OK', b'HTTP/1.1 200,OK', b'HTTP/1.1 200;OK', b'HTTP/1.1 2 0 0 OK', b'HTTP/1.1 20 0 OK', b'HTTP/ 1.1 200 OK', b'HTTP /1.1 200 OK', b'H TTP/1.1 200 OK', b'HTTP/1. 1 200 OK']
+	for l in deg_lines:
+		for k in ('req', 'resp', 'server', 'client'):
+			out.append({'k': k, 'line': l.hex()})
+		out.append({'k': 'proto', 's': l.hex()})
+		out.append({'k': 'status', 's': l.hex()})
+		out.append({'k': 'method', 'm': l.hex()})
+	deg_ops = [b'', b' ', b'  ', b'\t', b'/', b'.', b'/.', b'HTTP', b'HTTP/', b'HTTP/.', b'""', b'"', b'"HTTP/1.1"', b',', b'1.1', b'1', b'1,1', b'(1, 1)', b'HTTP/1.1 ', b' HTTP/1.1', b'HTTP/1.1\r\n']
+	for j, p in enumerate(grid):
+		for i, sop in enumerate(deg_ops):
+			if big or (i + j) % 3 == 0 or tuple(p) in ((1, 1), (1, 0), (0, 0)):
+				out.append({'k': 'cmp', 'p': list(p), 'o': 'str' if (i + j) % 2 else 'bytes', 's': sop.hex()})
+
+	# (6) the same version the way another sender writes it: leading zeros (numeric order against text), list / tuple-of-text operands
+	for p in grid:
+		qs = [p, rng.choice(grid), (p[0], rng.randint(0, 12)), (rng.randint(0, 3), p[1])] + ([rng.choice(grid) for _ in range(4)] if big else [])
+		for q in qs:
+			txt = b'HTTP/' + _zp(rng, q[0], q == p) + b'.' + _zp(rng, q[1])
+			out.append({'k': 'cmp', 'p': list(p), 'o': rng.choice(['bytes', 'str']), 's': txt.hex()})
+			out.append({'k': 'cmp', 'p': list(p), 'o': rng.choice(['list', 'strtuple', 'strlist']), 'q': list(q)})
+		txt = b'HTTP/' + _zp(rng, p[0], True) + b'.' + _zp(rng, p[1], True)
+		out.append({'k': 'proto', 's': txt.hex()})
+		out.append({'k': 'req', 'line': (rng.choice(NOBODY) + b' / ' + txt + b'\r\n').hex()})
+		out.append({'k': 'resp', 'line': (txt + b' 200 OK\r\n').hex()})
+		out.append({'k': 'server', 'line': (rng.choice(NOBODY) + b' / ' + txt).hex()})
+		out.append({'k': 'client', 'line': (txt + b' 404 Not Found').hex()})
+
+	# (2) look-alikes and normalisation forms: text positions of the API (oracle only), their UTF-8 octets on the wire (existing kinds)
+	for base in ['GET', 'PUT', 'OPTIONS', 'K', 'A-1_$.']:
+		for i, ch in enumerate(base):
+			for rep in LOOKALIKE.get(ch, []):
+				name = base[:i] + rep + base[i + 1:]
+				out.append({'k': 'uni', 'pos': 'method', 'text': name, 'how': rng.choice(['ctor', 'set', 'request', 'attr'])})
+				wire = name.encode('utf-8')
+				out.append({'k': 'method', 'm': wire.hex()})
+				out.append({'k': 'req', 'line': (wire + b' / HTTP/1.1').hex()})
+	for base in ['HTTP/1.1', 'HTTP/2.0', 'HTTP/1.0']:
+		for i, ch in enumerate(base):
+			for rep in LOOKALIKE.get(ch, []):
+				name = base[:i] + rep + base[i + 1:]
+				out.append({'k': 'uni', 'pos': 'proto', 'text': name, 'p': list(rng.choice([(1, 1), (1, 0), (2, 0), (0, 9)]))})
+				wire = name.encode('utf-8')
+				out.append({'k': 'proto', 's': wire.hex()})
+				out.append({'k': 'req', 'line': (b'GET / ' + wire).hex()})
+				out.append({'k': 'resp', 'line': (wire + b' 200 OK').hex()})
+				out.append({'k': 'cmp', 'p': [1, 1], 'o': 'bytes', 's': wire.hex()})
+	for base in ['200 OK', '201 OK', '100 A']:
+		for i, ch in enumerate(base[:4]):
+			for rep in LOOKALIKE.get(ch, []):
+				wire = (base[:i] + rep + base[i + 1:]).encode('utf-8')
+				out.append({'k': 'status', 's': wire.hex()})
+				out.append({'k': 'resp', 'line': (b'HTTP/1.1 ' + wire).hex()})
+				out.append({'k': 'client', 'line': (b'HTTP/1.1 ' + wire).hex()})
+	for txt in UNITEXT:
+		for how in ('tuple', 'attr', 'copy', 'response'):
+			out.append({'k': 'uni', 'pos': 'reason', 'text': rng.choice(['', 'x ']) + txt + rng.choice(['', ' y']), 'how': how, 'code': rng.randint(100, 599)})
+		out.append({'k': 'status', 's': (b'200 ' + txt.encode('utf-8')).hex()})
+		out.append({'k': 'resp', 'line': (b'HTTP/1.1 200 ' + txt.encode('utf-8')).hex()})
+
+	# (1) objects used several times and modified in between; machines over several messages
+	words = [b'OK', b'Not Found', b'a_b 9', b'X', b'I am a teapot', b'ok', b'not found', b'NOT FOUND']
+	good_m = METHODS[:10] + [b'get', b'Get', b'$x_y.z-1', b'A' * 20, b'a']
+	bad_m = [b'', b'G T', b'G\x00T', b'G\xe9T', b'GET\n', b' GET', b'G\x7f']
+	bad_v = [x for x in MALFORMED_VERSIONS if _version_form(x) is None]
+
+	def rv():
+		return rng.choice(grid) if rng.random() < 0.8 else (rng.randint(0, 999), rng.randint(0, 10 ** 12))
+
+	for _ in range(9000 if big else 900):
+		obj = rng.choice(['method', 'proto', 'proto', 'status', 'status', 'request', 'response', 'server', 'client'])
+		acts = []
+		n = rng.randint(3, 8)
+		if obj == 'method':
+			for _ in range(n):
+				r = rng.random()
+				if r < 0.45:
+					acts.append(['parse', rng.choice(good_m).hex()])
+				elif r < 0.7:
+					acts.append(['set', rng.choice(good_m).decode()])
+				elif r < 0.85:
+					acts.append(['parse', rng.choice(bad_m).hex()])
+				else:
+					acts.append(['bytes'])
+		elif obj == 'proto':
+			for _ in range(n):
+				r = rng.random()
+				v = rv()
+				if r < 0.25:
+					acts.append(['parse', _vtext(v).hex()])
+				elif r < 0.7:
+					acts.append(['set', rng.choice(['tuple', 'str', 'bytes', 'proto', 'list']), list(v)])
+				elif r < 0.85:
+					acts.append(['parse' if rng.random() < 0.5 else 'setbad', rng.choice(bad_v).hex()])
+				else:
+					acts.append(['bytes'])
+		elif obj == 'status':
+			for _ in range(n):
+				r = rng.random()
+				code, reason = rng.randint(100, 599), rng.choice(words).decode()
+				if r < 0.25:
+					acts.append(['parse', (b'%d ' % code + reason.encode()).hex()])
+				elif r < 0.6:
+					acts.append(['set', rng.choice(['int', 'tuple', 'tupleb', 'str', 'bytes', 'status']), code, reason])
+				elif r < 0.7:
+					acts.append(['code', code])
+				elif r < 0.8:
+					acts.append(['reason', reason])
+				elif r < 0.9:
+					acts.append(['parse', (b'%d ' % rng.choice([0, 99, 600, 999, 1000]) + reason.encode()).hex()])
+				else:
+					acts.append(['bytes'])
+		elif obj == 'request':
+			for _ in range(n):
+				r = rng.random()
+				if r < 0.4:
+					line = rng.choice(good_m[:9] + [b'get']) + b' ' + rng.choice(SAFE_TARGETS) + b' ' + _vtext(rng.choice(grid))
+					if line.startswith(b'CONNECT'):
+						line = b'PATCH' + line[7:]
+					acts.append(['parse', _rline(rng, line.split(b' ')).hex()])
+				elif r < 0.55:
+					acts.append(['method', rng.choice([x for x in good_m if x != b'CONNECT']).decode()])
+				elif r < 0.7:
+					acts.append(['protocol', rng.choice(['tuple', 'str', 'bytes', 'proto']), list(rng.choice(grid))])
+				elif r < 0.8:
+					acts.append(['uri', rng.choice(SAFE_TARGETS).decode()])
+				elif r < 0.9:
+					acts.append(['parse', rng.choice([b'GET /', b'G T / HTTP/1.1', b'GET / HTTP/x', b'', b'GET / HTTP/1.1 x']).hex()])
+				else:
+					acts.append(['share'])
+		elif obj == 'response':
+			for _ in range(n):
+				r = rng.random()
+				code, reason = rng.randint(100, 599), rng.choice(words).decode()
+				if r < 0.4:
+					acts.append(['parse', _rline(rng, [_vtext(rng.choice(grid)), b'%d' % code, reason.encode()]).hex()])
+				elif r < 0.6:
+					acts.append(['status', rng.choice(['int', 'tuple', 'str', 'bytes', 'status']), code, reason])
+				elif r < 0.75:
+					acts.append(['protocol', rng.choice(['tuple', 'str', 'bytes', 'proto']), list(rng.choice(grid))])
+				elif r < 0.9:
+					acts.append(['parse', rng.choice([b'HTTP/1.1', b'HTTP/1.1 99 x', b'HTTP/1.1 600 x', b'HTTP/x 200 OK', b'']).hex()])
+				else:
+					acts.append(['share'])
+		elif obj == 'server':
+			for i in range(rng.randint(2, 5)):
+				v = rng.choice([(1, 1), (1, 0), (0, 9), (1, 1), (0, 0), (1, 0), (0, 11)])
+				acts.append([(rng.choice(NOBODY) + b' ' + rng.choice(SAFE_TARGETS) + b' ' + _vtext(v)).hex(), rng.random() < 0.3])
+			if rng.random() < 0.4:
+				acts.append([(rng.choice(NOBODY) + b' / ' + rng.choice([b'HTTP/2.0', b'HTTP/1.2', b'HTTP/3.1', b'HTTP/x', b'HTTP/1.10'])).hex(), False])
+		else:
+			for i in range(rng.randint(2, 5)):
+				acts.append([(_vtext(rng.choice(grid)) + b' %d ' % rng.choice([200, 204, 404, 500, 299, 304]) + rng.choice(words)).hex(), rng.random() < 0.3])
+		out.append({'k': 'seq', 'obj': obj, 'acts': acts})
+	for c in out:
+		if len(c.get('line', '')) + len(c.get('s', '')) + len(c.get('m', '')) + 2 * len(c.get('reason', '')) > 600:
+			c['nocoq'] = 1
+	return out
 
 
 def _server_case_ok(c):
@@ -318,7 +624,8 @@ def _operand(c):
 		s = bytes.fromhex(c['s'])
 		return s if kind == 'bytes' else s.decode('latin-1')
 	q = tuple(c['q'])
-	return {'ver': lambda: Protocol(q), 'tuple': lambda: q, 'bytes': lambda: _vtext(q), 'str': lambda: _vtext(q).decode()}[kind]()
+	return {'ver': lambda: Protocol(q), 'tuple': lambda: q, 'bytes': lambda: _vtext(q), 'str': lambda: _vtext(q).decode(),
+		'list': lambda: list(q), 'strtuple': lambda: (str(q[0]), str(q[1])), 'strlist': lambda: [str(q[0]), str(q[1])]}[kind]()
 
 
 def _cmp(fn):
@@ -464,7 +771,226 @@ def observe(c):
 			return {'res': 'escape:delivered%d' % len(out)}
 		resp = out[0]
 		return {'res': 'ok', 'v': _hv(resp.protocol), 'code': resp.status.code, 'reason': resp.status.reason.encode('latin-1').hex()}
+	if k == 'uni':
+		return _observe_uni(c)
+	if k == 'seq':
+		return {'s': _observe_seq(c)}
 	raise ValueError(k)
+
+
+def _try(fn):
+	try:
+		fn()
+		return 'ok'
+	except UnicodeError:
+		return 'unicode'
+	except Exception as exc:
+		return _exc(exc)
+
+
+def _hexb(fn):
+	try:
+		return bytes(fn()).hex()
+	except Exception as exc:
+		return 'exc:%s' % type(exc).__name__
+
+
+def _observe_uni(c):
+	from httoop.messages.method import Method
+	from httoop.messages.protocol import Protocol
+	from httoop.messages.request import Request
+	from httoop.messages.response import Response
+	from httoop.status.status import Status
+	text = c['text']
+	if c['pos'] == 'method':
+		how = c['how']
+		if how == 'ctor':
+			box = []
+			r = _try(lambda: box.append(Method(text)))
+			return {'res': r, 'after': _hexb(lambda: box[0]) if box else None}
+		if how == 'set':
+			m = Method('PUT')
+			return {'res': _try(lambda: m.set(text)), 'after': _hexb(lambda: m)}
+		if how == 'request':
+			box = []
+			r = _try(lambda: box.append(Request(method=text)))
+			return {'res': r, 'after': _hexb(lambda: box[0].method) if box else None}
+		rq = Request(method='PUT')
+
+		def assign():
+			rq.method = text
+		return {'res': _try(assign), 'after': _hexb(lambda: rq.method)}
+	if c['pos'] == 'proto':
+		p = Protocol(tuple(c['p']))
+		out = {'set': _try(lambda: p.set(text)), 'after': _hexb(lambda: p), 'ctor': _try(lambda: Protocol(text))}
+		for name, fn in (('eq', lambda: p == text), ('ne', lambda: p != text), ('lt', lambda: p < text), ('gt', lambda: p > text), ('le', lambda: p <= text), ('ge', lambda: p >= text)):
+			out[name] = _cmp(fn)
+		return out
+	if c['pos'] == 'reason':
+		how = c['how']
+		code = c['code']
+		if how == 'tuple':
+			st = Status()
+			st.set((code, text))
+		elif how == 'attr':
+			st = Status(code, 'x')
+			st.reason = text
+		elif how == 'copy':
+			a = Status()
+			a.set((code, text))
+			st = Status()
+			st.set(a)
+		else:
+			r = Response()
+			r.status = (code, text)
+			st = r.status
+		return {'reason': [ord(ch) for ch in st.reason], 'phrase': [ord(ch) for ch in st.reason_phrase], 'code': st.code, 'bytes': _hexb(lambda: st)}
+	raise ValueError(c['pos'])
+
+
+def _observe_seq(c):
+	from httoop.messages.method import Method
+	from httoop.messages.protocol import Protocol
+	from httoop.messages.request import Request
+	from httoop.messages.response import Response
+	from httoop.status.status import Status
+	from httoop.status.types import StatusException
+	obj = c['obj']
+	out = []
+
+	def pval(kind, v):
+		v = tuple(v)
+		return {'tuple': v, 'list': list(v), 'str': _vtext(v).decode(), 'bytes': _vtext(v), 'proto': Protocol(v)}[kind]
+
+	def sval(kind, code, reason):
+		if kind == 'status':
+			x = Status()
+			x.set((code, reason))
+			return x
+		return {'int': code, 'tuple': (code, reason), 'tupleb': (code, reason.encode()), 'str': '%d %s' % (code, reason), 'bytes': b'%d ' % code + reason.encode()}[kind]
+	if obj == 'method':
+		m = Method()
+		for a in c['acts']:
+			r = 'ok'
+			if a[0] == 'parse':
+				r = _try(lambda: m.parse(bytes.fromhex(a[1])))
+			elif a[0] == 'set':
+				r = _try(lambda: m.set(a[1]))
+			out.append([r, _hexb(lambda: m), _hexb(lambda: m)])
+		return out
+	if obj == 'proto':
+		p = Protocol()
+		for a in c['acts']:
+			r = 'ok'
+			if a[0] == 'parse':
+				r = _try(lambda: p.parse(bytes.fromhex(a[1])))
+			elif a[0] == 'setbad':
+				r = _try(lambda: p.set(bytes.fromhex(a[1])))
+			elif a[0] == 'set':
+				r = _try(lambda: p.set(pval(a[1], a[2])))
+			out.append([r, _hexb(lambda: p), [str(int(p.major)), str(int(p.minor))], [str(int(x)) for x in p.version]])
+		return out
+	if obj == 'status':
+		st = Status()
+		for a in c['acts']:
+			r = 'ok'
+			fresh = None
+			if a[0] == 'parse':
+				r = _try(lambda: st.parse(bytes.fromhex(a[1])))
+			elif a[0] == 'set':
+				r = _try(lambda: st.set(sval(a[1], a[2], a[3])))
+				if a[1] == 'int':
+					fresh = _hexb(lambda: Status(a[2]))
+			elif a[0] == 'code':
+				def f():
+					st.code = a[1]
+				r = _try(f)
+			elif a[0] == 'reason':
+				def g():
+					st.reason = a[1]
+				r = _try(g)
+			out.append([r, _hexb(lambda: st), st.code, st.reason, fresh, int(st), _hexb(lambda: st)])
+		return out
+	if obj in ('request', 'response'):
+		m = Request() if obj == 'request' else Response()
+		shared = []
+		for a in c['acts']:
+			r = 'ok'
+			if a[0] == 'parse':
+				r = _try(lambda: m.parse(bytes.fromhex(a[1])))
+			elif a[0] == 'method':
+				def f1():
+					m.method = a[1]
+				r = _try(f1)
+			elif a[0] == 'uri':
+				def f2():
+					m.uri = a[1]
+				r = _try(f2)
+			elif a[0] == 'protocol':
+				def f3():
+					m.protocol = pval(a[1], a[2])
+				r = _try(f3)
+			elif a[0] == 'status':
+				def f4():
+					m.status = sval(a[1], a[2], a[3])
+				r = _try(f4)
+			elif a[0] == 'share':  # another message takes over this one's protocol (and status / method) objects' values now
+				o = Request() if obj == 'request' else Response()
+				o.protocol = m.protocol
+				if obj == 'request':
+					o.method = bytes(m.method).decode('ascii')
+				else:
+					o.status = m.status
+				shared.append(o)
+			out.append([r, _hexb(lambda: m), [_hexb(lambda: o) for o in shared]])
+		return out
+	if obj == 'server':
+		from httoop.server import ServerStateMachine
+		sm = ServerStateMachine('http', 'localhost', 80)
+		acts = c['acts']
+		i = 0
+		while i < len(acts):
+			# Content-Length: 0 on every request: without it the machine answers 411 when more octets are buffered (parser shortcut, property C01/C02)
+			data = bytes.fromhex(acts[i][0]) + b'\r\nHost: x\r\nContent-Length: 0\r\n\r\n'
+			want = 1
+			if acts[i][1] and i + 1 < len(acts):  # two requests in one call
+				data += bytes.fromhex(acts[i + 1][0]) + b'\r\nHost: x\r\nContent-Length: 0\r\n\r\n'
+				want = 2
+			try:
+				res = sm.parse(data)
+				out.append(['ok', [[bytes(rq.method).hex(), [int(x) for x in rq.protocol], [int(x) for x in rs.protocol]] for rq, rs in res], want])
+			except StatusException as exc:
+				out.append(['http', int(exc.code), want])
+				break
+			except Exception as exc:
+				out.append([_exc(exc), None, want])
+				break
+			i += want
+		return out
+	if obj == 'client':
+		from httoop.client import ClientStateMachine
+		sm = ClientStateMachine()
+		sm.request = Request()
+		acts = c['acts']
+		i = 0
+		while i < len(acts):
+			data = bytes.fromhex(acts[i][0]) + b'\r\nContent-Length: 0\r\n\r\n'
+			want = 1
+			if acts[i][1] and i + 1 < len(acts):
+				data += bytes.fromhex(acts[i + 1][0]) + b'\r\nContent-Length: 0\r\n\r\n'
+				want = 2
+			try:
+				res = sm.parse(data)
+				out.append(['ok', [[[int(x) for x in rs.protocol], rs.status.code, rs.status.reason] for rs in res], want])
+			except StatusException as exc:
+				out.append(['http', int(exc.code), want])
+				break
+			except Exception as exc:
+				out.append([_exc(exc), None, want])
+				break
+			i += want
+		return out
+	raise ValueError(obj)
 
 
 # ------------------------------------------------------------------------------------------------ Coq literals
@@ -482,8 +1008,12 @@ def _cres(s):
 
 def coq_case(c, o):
 	k = c['k']
-	if 'skip' in o or k == 'order3':
+	if 'skip' in o or k in ('order3', 'uni', 'seq'):
 		return None
+	if k == 'cmp' and c['o'] in ('list', 'strtuple', 'strlist'):
+		return None  # operand spellings outside the model's vocabulary: oracle only
+	if c.get('nocoq'):
+		return None  # long items of the fourth wave (limit lengths above 1 kB): oracle only
 	res = o.get('res', '')
 	if isinstance(res, str) and res.startswith('escape') and res != 'escape:ValueError':
 		return 'CForceFail'
@@ -744,6 +1274,11 @@ def oracle(c, o):
 		if 's' in c:
 			form = _version_form(bytes.fromhex(c['s']))
 			if form is None:
+				# a text that is not a version equals no version and is not ordered with one
+				if o['eq'] != 'F' or o['ne'] != 'T' or any(o[x] == 'T' for x in ('lt', 'le', 'gt', 'ge')):
+					return 'Protocol(%r) compared with the text %r, which is not HTTP/digits.digits: %r' % (p, bytes.fromhex(c['s']), {x: o[x] for x in ('eq', 'ne', 'lt', 'le', 'gt', 'ge')})
+				return None
+			if _over_limit(*form):
 				return None
 			q = (int(form[0]), int(form[1]))
 		else:
@@ -779,6 +1314,10 @@ def oracle(c, o):
 					if rel[i][j][E] == 'T' and rel[j][l][E] == 'T' and rel[i][l][E] != 'T':
 						return '== not transitive on %r' % (c['vs'],)
 		return None
+	if k == 'uni':
+		return _oracle_uni(c, o)
+	if k == 'seq':
+		return _oracle_seq(c, o['s'])
 	if k == 'server':
 		from httoop.version import ServerProtocol
 		own = (int(ServerProtocol.major), int(ServerProtocol.minor))
@@ -801,6 +1340,202 @@ def oracle(c, o):
 		if got != low or (int(o['req'][0], 16), int(o['req'][1], 16)) != v or bytes.fromhex(o['m']) != f[0]:
 			return 'request %r: response version %r, expected the lower of %r and %r' % (line, got, v, own)
 		return None
+	return None
+
+
+def _oracle_uni(c, o):
+	text = c['text']
+	if c['pos'] == 'method':
+		if o['res'] == 'ok':
+			return 'method text %a (look-alike / non-ASCII characters, not of the method alphabet) was accepted through %s and composes to %r' % (text, c['how'], o['after'] and bytes.fromhex(o['after']))
+		if o['res'] not in ('line', 'unicode'):
+			return 'method text %a through %s: unexpected %s' % (text, c['how'], o['res'])
+		if c['how'] in ('set', 'attr') and o['after'] != b'PUT'.hex():
+			return 'rejected method text %a changed the method object to %r' % (text, o['after'])
+		return None
+	if c['pos'] == 'proto':
+		for key in ('set', 'ctor'):
+			if o[key] == 'ok':
+				return 'version text %a (look-alike characters, not HTTP/digits.digits) was accepted by Protocol.%s' % (text, 'set' if key == 'set' else '__init__')
+			if o[key] not in ('line', 'unicode'):
+				return 'version text %a: unexpected %s' % (text, o[key])
+		if o['after'] != _vtext(c['p']).hex():
+			return 'rejected version text %a changed the Protocol object %r to %r' % (text, c['p'], o['after'])
+		if o['eq'] != 'F' or o['ne'] != 'T' or any(o[x] == 'T' or o[x].startswith('escape') for x in ('lt', 'gt', 'le', 'ge')):
+			return 'Protocol(%r) compared with the look-alike text %a: %r' % (c['p'], text, {x: o[x] for x in ('eq', 'ne', 'lt', 'le', 'gt', 'ge')})
+		return None
+	want = [ord(ch) for ch in text]
+	if o['reason'] != want or o['phrase'] != want or o['code'] != c['code']:
+		return 'reason phrase %a set through %s comes back as %a (code %r): not code point for code point' % (text, c['how'], ''.join(chr(x) for x in o['reason']), o['code'])
+	if all(x < 128 for x in want) and o['bytes'] != (b'%d ' % c['code'] + text.encode('ascii')).hex():
+		return 'Status(%d, %a) composes to %r' % (c['code'], text, o['bytes'])
+	return None
+
+
+def _oracle_seq(c, obs):
+	"""what a fresh object built from the last value that was set must give, after every action"""
+	from httoop.version import ServerProtocol
+	obj = c['obj']
+	acts = c['acts']
+
+	def where(i):
+		return 'after action %d of %r on one %s object' % (i, acts[:i + 1], obj)
+	if obj == 'method':
+		cur = b'GET'
+		for i, (a, ob) in enumerate(zip(acts, obs)):
+			if a[0] in ('parse', 'set'):
+				m = bytes.fromhex(a[1]) if a[0] == 'parse' else a[1].encode('ascii')
+				good = _is_prop_method(m)
+				if good != (ob[0] == 'ok'):
+					return '%s: method %r %s (%s)' % (where(i), m, 'rejected' if good else 'accepted', ob[0])
+				if good:
+					cur = m
+			if ob[1] != cur.hex() or ob[2] != cur.hex():
+				return '%s: the method composes to %r / %r, a fresh object of the last valid name gives %r' % (where(i), ob[1], ob[2], cur)
+		return None
+	if obj == 'proto':
+		cur = (1, 1)
+		for i, (a, ob) in enumerate(zip(acts, obs)):
+			if a[0] in ('parse', 'setbad'):
+				form = _version_form(bytes.fromhex(a[1]))
+				if (form is not None) != (ob[0] == 'ok'):
+					return '%s: version text %r: %s' % (where(i), bytes.fromhex(a[1]), ob[0])
+				if form is not None:
+					cur = (int(form[0]), int(form[1]))
+			elif a[0] == 'set':
+				if ob[0] != 'ok':
+					return '%s: Protocol.set(%s %r): %s' % (where(i), a[1], a[2], ob[0])
+				cur = tuple(a[2])
+			want = [_vtext(cur).hex(), [str(cur[0]), str(cur[1])], [str(cur[0]), str(cur[1])]]
+			if ob[1:] != want:
+				return '%s: bytes / (major, minor) / version = %r, a fresh Protocol(%r) gives %r' % (where(i), ob[1:], cur, want)
+		return None
+	if obj == 'status':
+		code, reason = 0, ''
+		for i, (a, ob) in enumerate(zip(acts, obs)):
+			fresh = None
+			if a[0] == 'parse':
+				f = _status_fields(bytes.fromhex(a[1]))
+				good = 100 <= f[0] <= 599
+				if good != (ob[0] == 'ok'):
+					return '%s: status %r: %s' % (where(i), bytes.fromhex(a[1]), ob[0])
+				if good:
+					code, reason = f[0], f[1].decode()
+			elif a[0] == 'set':
+				if ob[0] != 'ok':
+					return '%s: Status.set(%s): %s' % (where(i), a[1:], ob[0])
+				code = a[2]
+				if a[1] == 'int':
+					fresh = ob[4]
+					reason = None
+				else:
+					reason = a[3]
+			elif a[0] == 'code':
+				code = a[1]
+			elif a[0] == 'reason':
+				reason = a[1]
+			if a[0] in ('code', 'reason') and ob[0] != 'ok':
+				return '%s: the %s setter: %s' % (where(i), a[0], ob[0])
+			if reason is None:  # the default phrase of the code: whatever a fresh Status(code) has
+				if fresh is None or not fresh.startswith((b'%d ' % code).hex()):
+					return '%s: a fresh Status(%d) composes to %r' % (where(i), code, fresh)
+				reason = bytes.fromhex(fresh)[len(b'%d ' % code):].decode('latin-1')
+			want = (b'%d ' % code + reason.encode('latin-1')).hex()
+			if ob[1] != want or ob[6] != want or ob[2] != code or ob[3] != reason or ob[5] != code:
+				return '%s: bytes=%r code=%r reason=%r int=%r, a fresh Status of the last values gives %r' % (where(i), ob[1], ob[2], ob[3], ob[5], bytes.fromhex(want))
+		return None
+	if obj in ('request', 'response'):
+		m, t, v, code, reason = b'GET', b'/', (1, 1), 200, 'OK'
+		shared = []
+		known = True
+		for i, (a, ob) in enumerate(zip(acts, obs)):
+			if a[0] == 'parse':
+				line = bytes.fromhex(a[1])
+				if obj == 'request':
+					f = line.split()
+					good = len(f) == 3 and _is_prop_method(f[0]) and _version_form(f[2]) is not None
+					if good:
+						form = _version_form(f[2])
+						m, t, v = f[0], f[1], (int(form[0]), int(form[1]))
+				else:
+					f = line.split(None, 2)
+					good = len(f) == 3 and _version_form(f[0]) is not None and f[1].isdigit() and len(f[1]) == 3 and 100 <= int(f[1]) <= 599 and _is_words(f[2].rstrip(WS))
+					if good:
+						form = _version_form(f[0])
+						v, code, reason = (int(form[0]), int(form[1])), int(f[1]), f[2].rstrip(WS).decode()
+				if good != (ob[0] == 'ok'):
+					return '%s: start line %r: %s' % (where(i), line, ob[0])
+				known = good  # a refused line may have replaced some of the fields already: nothing is said until the next accepted line
+			elif ob[0] != 'ok':
+				return '%s: assignment failed: %s' % (where(i), ob[0])
+			elif a[0] == 'method':
+				m = a[1].encode('ascii')
+			elif a[0] == 'uri':
+				t = a[1].encode('ascii')
+			elif a[0] == 'protocol':
+				v = tuple(a[2])
+			elif a[0] == 'status':
+				code = a[2]
+				reason = a[3] if a[1] != 'int' else None
+			if not known:
+				if a[0] == 'share':
+					shared.append(bytes.fromhex(ob[2][-1]) if not ob[2][-1].startswith('exc') else ob[2][-1])
+				if [bytes.fromhex(x) if not x.startswith('exc') else x for x in ob[2]] != shared:
+					return '%s: the messages that took the values over earlier now compose to %r, they were %r' % (where(i), ob[2], shared)
+				continue
+			if obj == 'request':
+				want = m + b' ' + t + b' ' + _vtext(v) + b'\r\n'
+				share_want = m + b' / ' + _vtext(v) + b'\r\n'
+			else:
+				want = _vtext(v) + b' %d ' % code + (reason.encode() if reason is not None else b'')
+				share_want = want = want + b'\r\n' if reason is not None else want
+			if a[0] == 'share':
+				shared.append(share_want)
+			got = bytes.fromhex(ob[1]) if not ob[1].startswith('exc') else ob[1]
+			if reason is None:
+				if not (isinstance(got, bytes) and got.startswith(want) and got.endswith(b'\r\n')):
+					return '%s: composes to %r, expected a line starting with %r' % (where(i), got, want)
+				reason = got[len(want):-2].decode('latin-1')
+				if shared and a[0] == 'share':
+					shared[-1] = got
+			elif got != want:
+				return '%s: composes to %r, a fresh message of the last values gives %r' % (where(i), got, want)
+			if [bytes.fromhex(x) if not x.startswith('exc') else x for x in ob[2]] != shared:
+				return '%s: the messages that took the values over earlier now compose to %r, they were %r' % (where(i), ob[2], shared)
+		return None
+	own = (int(ServerProtocol.major), int(ServerProtocol.minor))
+	lines = [bytes.fromhex(a[0]) for a in acts]
+	pos = 0
+	for ob in obs:
+		want = ob[2]
+		group = lines[pos:pos + want]
+		exp = []
+		err = None
+		for line in group:
+			if obj == 'server':
+				f = line.split()
+				form = _version_form(f[2])
+				if form is None:
+					err = 400
+					break
+				vv = (int(form[0]), int(form[1]))
+				if vv > own:
+					err = 505
+					break
+				exp.append([f[0].hex(), list(vv), list(min(vv, own))])
+			else:
+				f = line.split(None, 2)
+				form = _version_form(f[0])
+				exp.append([[int(form[0]), int(form[1])], int(f[1]), f[2].decode()])
+		if err is not None:
+			if ob[0] != 'http' or ob[1] != err:
+				return 'message %d on one %s machine (%r): expected %d, got %r' % (pos + len(exp), obj, lines[:pos + len(exp) + 1], err, ob[:2])
+			return None
+		if ob[0] != 'ok' or ob[1] != exp:
+			return 'messages %d.. on one %s machine (%r): delivered %r, a fresh machine gives %r' % (pos, obj, lines[:pos + want], ob[:2], exp)
+		pos += want
+	if pos != len(lines):
+		return 'only %d of the %d messages %r were delivered by one %s machine' % (pos, len(lines), lines, obj)
 	return None
 
 
